@@ -87,19 +87,51 @@ theorem supersampledStat_mean (s : Shape) (nx ny : Nat) (xs ys : List Rat) :
   unfold supersampledStat supersampled
   cases ditherGrids nx ny xs ys with
   | none => rfl
-  | some gs => simp only [combineFields]
+  | some gs => simp [combineFields]
 
-/-- the statistic plays no role in whether (and how) the call fails -/
-theorem supersampledStat_error_iff (st : Stat) (s : Shape) (nx ny : Nat) (xs ys : List Rat)
-    (e : SuperErr) :
-    supersampledStat st s nx ny xs ys = .error e ↔ supersampled s nx ny xs ys = .error e := by
+/-- a one-point axis is an IndexError whatever the statistic -/
+theorem supersampledStat_index_iff (st : Stat) (s : Shape) (nx ny : Nat) (xs ys : List Rat) :
+    supersampledStat st s nx ny xs ys = .error .index ↔ (xs.length < 2 ∨ ys.length < 2) := by
+  rw [← (supersampled_error_iff s nx ny xs ys).1]
   unfold supersampledStat supersampled
   cases ditherGrids nx ny xs ys with
   | none => simp
   | some gs =>
     by_cases hn : nx = 0 ∨ ny = 0
-    · simp only [if_pos hn]
+    · by_cases hm : st = .mean <;> simp [if_pos hn, hm]
     · simp only [if_neg hn, reduceCtorEq]
+
+/-- an oversampling factor 0 (on axes with ≥ 2 points): ZeroDivisionError for 'mean',
+AttributeError for 'sum' / 'min' / 'max' -/
+theorem supersampledStat_zero_iff (st : Stat) (s : Shape) (nx ny : Nat) (xs ys : List Rat) :
+    (supersampledStat st s nx ny xs ys = .error .zeroDiv ↔
+      (st = .mean ∧ 2 ≤ xs.length ∧ 2 ≤ ys.length ∧ (nx = 0 ∨ ny = 0))) ∧
+    (supersampledStat st s nx ny xs ys = .error .attribute ↔
+      (st ≠ .mean ∧ 2 ≤ xs.length ∧ 2 ≤ ys.length ∧ (nx = 0 ∨ ny = 0))) := by
+  have hiff := ditherGrids_isSome_iff nx ny xs ys
+  unfold supersampledStat
+  cases hg : ditherGrids nx ny xs ys with
+  | none =>
+    rw [hg] at hiff
+    simp only [Option.isSome_none, Bool.false_eq_true, false_iff, not_and, not_le] at hiff
+    constructor
+    · simp only [reduceCtorEq, Except.error.injEq, false_iff]
+      rintro ⟨_, hx, hy, _⟩
+      have := hiff hx
+      omega
+    · simp only [reduceCtorEq, Except.error.injEq, false_iff]
+      rintro ⟨_, hx, hy, _⟩
+      have := hiff hx
+      omega
+  | some gs =>
+    rw [hg] at hiff
+    simp only [Option.isSome_some, true_iff] at hiff
+    by_cases hn : nx = 0 ∨ ny = 0
+    · by_cases hm : st = .mean
+      · simp [if_pos hn, hm, hiff.1, hiff.2]; exact hn
+      · simp [if_pos hn, hm, hiff.1, hiff.2]; exact hn
+    · simp only [if_neg hn, reduceCtorEq, false_iff]
+      constructor <;> tauto
 
 /-- **'min' and 'max' only select**: each value is the aperture's value at some physical point -/
 theorem supersampledStat_minmax_val {st : Stat} (hst : st = .min ∨ st = .max) {s : Shape} (hw : WF s)
